@@ -431,11 +431,11 @@ def _delivers_index(prog, fname, pi, depth=0):
                                                                                           and 0 in (lit.lhs.const_value(), lit.rhs.const_value()))))) is None
 
 
-def _capacity_local_grows(k, kcfg, rcall):
+def _capacity_local_grows(k, kcfg, rcall, size=None):
     """realloc(p, new_cap * sizeof(entry)) with the new capacity in a local: every definition of the local is larger than the capacity the
     object has (a positive constant where that is 0, a multiple or sum of it where it is not, a bound it was compared against), and the
     local is then stored as the object's capacity.  None when the size is not of that form."""
-    m = re.fullmatch(r"(\w+) \* sizeof\(struct file_entry\)|sizeof\(struct file_entry\) \* (\w+)", render(rcall.call_args()[1]))
+    m = re.fullmatch(r"(\w+) \* sizeof\(struct file_entry\)|sizeof\(struct file_entry\) \* (\w+)", size or render(rcall.call_args()[1]))
     if not m:
         return None
     v = m.group(1) or m.group(2)
@@ -447,9 +447,9 @@ def _capacity_local_grows(k, kcfg, rcall):
         if isinstance(l2, dict) and r2 is not None and render(r2).endswith("->alloc_length"):
             olds.add(l2["name"])
     published = [st2 for l2, r2, st2, k2 in query.stores(k) if k2 == "=" and render(l2).endswith("->alloc_length") and r2 is not None and render(r2) == v
-                 and kcfg.node_dominates(rcall, st2)]
+                 and (kcfg.node_dominates(rcall, st2) or kcfg.node_dominates(st2, rcall))]
     if not published:
-        return ("unknown", "the new capacity `%s` is not stored as the object's capacity after the realloc" % v)
+        return ("unknown", "the new capacity `%s` is not stored as the object's capacity with the realloc" % v)
     why = []
     for r2, st2 in defs:
         t = render(r2)
@@ -538,8 +538,8 @@ def a5(prog, ctx):
         ctx.ok("A5", "key_file_append grows at the right moment", verdict[2].where, verdict[1])
     else:
         ctx.fail("A5", "key_file_append grows at the right moment", verdict[2].where, verdict[1], key="append-growth")
-    size = render(re_[0].call_args()[1])
-    grown = _capacity_local_grows(k, kcfg, re_[0]) if "alloc_length" not in size and "sizeof(struct file_entry)" in size else None
+    size = re.sub(r"sizeof\s*\(?\s*(\*\s*\(?\w+->file_entry\)?|\w+->file_entry\[0\])\s*\)?", "sizeof(struct file_entry)", render(re_[0].call_args()[1]))
+    grown = _capacity_local_grows(k, kcfg, re_[0], size) if "alloc_length" not in size and "sizeof(struct file_entry)" in size else None
     if grown is not None:
         if grown[0] == "ok":
             ctx.ok("A5", "key_file_append grows by one entry", re_[0].where, "realloc(%s): %s" % (size, grown[1]))
@@ -846,7 +846,17 @@ def a7(prog, ctx):
                              "`%s` inside the loop over `%s`: the mark of one entry decides about / the key of one entry is copied for another" % (render(x)[:50], sh.var),
                              key="keys-index")
     cp = [st for lhs, rhs, st, kind in query.stores(k) if render(lhs).startswith("(*keys)[")]
-    if cp and re.match(r"strdup\(kf->file_entry\[[\w$.]+\]\.key\)", render(cp[0].children[1])) and "++" in render(cp[0].children[0]):
+    def _stepped_after(st9):
+        # `list[n] = ..; ..; n++;` with the count stepped once per round of the same loop and set nowhere else in it
+        m9 = re.fullmatch(r"\(\*keys\)\[([\w$.]+)\]", render(st9.children[0]))
+        lp9 = next((a9 for a9 in st9.ancestors() if a9.k in ("ForStmt", "WhileStmt")), None)
+        if not m9 or lp9 is None:
+            return False
+        inside = [(st2, k2) for l2, r2, st2, k2 in query.stores(k) if render(l2) == m9.group(1) and st2.within(lp9)]
+        return len(inside) == 1 and inside[0][1] == "++" and inside[0][0].j.get("op") == "++" and \
+            next((a9 for a9 in inside[0][0].ancestors() if a9.k in ("ForStmt", "WhileStmt", "IfStmt")), None) is lp9 and \
+            k.cfg.block_of(inside[0][0]) in k.cfg.reachable(k.cfg.block_of(st9))
+    if cp and re.match(r"strdup\(kf->file_entry\[[\w$.]+\]\.key\)", render(cp[0].children[1])) and ("++" in render(cp[0].children[0]) or _stepped_after(cp[0])):
         ctx.ok("A7", "econf_getKeys returns the keys in entry order", cp[0].where, render(cp[0]))
     else:
         ctx.fail("A7", "econf_getKeys returns the keys in entry order", (cp[0] if cp else k).where, "copy statement %s" % ([render(c) for c in cp]), key="keys-copy")
@@ -870,7 +880,7 @@ def a8(prog, ctx, getters, setters, defs):
         ref = shapes[names[0]]
         odd = [n for n in names if shapes[n].replace("&value", "value") != ref.replace("&value", "value")]
         from_macro = [n for n in names if prog.fn(n).from_macro == macro]
-        if odd and all(prog.fn(n).from_macro is None for n in odd) and any(prog.fn(n).from_macro is not None for n in names if n not in odd):
+        if odd and all(prog.fn(n).from_macro is None for n in odd) and any(n not in odd for n in names):
             # a member written out by hand (the string variant has to allocate its copy of the default): it must agree with the
             # generated ones in what it checks about its arguments and in which accessor it delegates to
             def core(txt, fn9):
